@@ -23,11 +23,21 @@ type MultiPassReader struct {
 	rs          io.ReadSeeker
 	passesCount int
 	passesLimit int
+	passRead    bool // Something was read in the current pass.
 }
 
 func (r *MultiPassReader) Read(p []byte) (n int, err error) {
 	n, err = r.rs.Read(p)
+	if n > 0 {
+		r.passRead = true
+	}
 	if err == io.EOF {
+		if !r.passRead {
+			// Empty source: the next pass would be empty too. Without this a reader with
+			// unlimited passes returns (0, nil) forever.
+			return
+		}
+		r.passRead = false
 		r.passesCount++
 		if r.passesLimit <= 0 || r.passesCount < r.passesLimit {
 			_, err = r.rs.Seek(0, io.SeekStart)
